@@ -68,6 +68,9 @@ def build(case):
 
         nodes = ["n%d" % i for i in range(n)]
 
+        def mk_extra():
+            return "extra"
+
         def make(mapping):
             return Graph() if mapping is None else Graph(mapping)
 
@@ -102,7 +105,16 @@ def build(case):
                 strategies.insert(0, ExecutionStrategy(resources=res, batch_size=1, runtime=EventTime(1, us)))
             return WorkProfile(name="wp%d" % i, execution_strategies=ExecutionStrategies(strategies=strategies))
 
+        rt = list(rt) + [1]
         jobs = [Job(name="j%d" % i, profile=profile(i)) for i in range(n)]
+        extra_job = [None]
+
+        def mk_extra():
+            extra_job[0] = Job(name="jextra", profile=profile(n))
+            if cls == "jobgraph":
+                return extra_job[0]
+            return Task(name="textra", task_graph="tg", job=extra_job[0], deadline=EventTime(10**6, us), timestamp=0, _logger=lg)
+
         if cls == "jobgraph":
             nodes = jobs
 
@@ -129,6 +141,29 @@ def build(case):
     for op in case.get("ops", ()):
         if op[0] == "n":
             addn(g, nodes[op[1]], [nodes[c] for c in op[2]])
+        elif op[0] == "x":
+            extra = mk_extra()
+            addn(g, extra, [nodes[c] for c in op[1]])
+            for warm in (
+                lambda: g.topological_sort(),
+                lambda: [g.get_node_depth(x) for x in nodes],
+                lambda: [g.are_dependent(nodes[0], x) for x in nodes] if nodes else None,
+                lambda: g.get_longest_path(lambda x: 1),
+                lambda: list(g.breadth_first()),
+                lambda: list(g.depth_first(extra)),
+                lambda: list(g.breadth_first(extra)),
+                lambda: g.get_sources(),
+                # (the two `cached_property` attributes TaskGraph.critical_path_runtime / JobGraph.completion_time are NOT
+                # warmed: they are declared as computed-once values and are stale after ANY later mutation of the graph,
+                # add_task included -- recorded as an observation, not demanded by the statement)
+                lambda: (g.get_sink_tasks(), g.get_source_tasks()) if hasattr(g, "get_sink_tasks") else None,
+                lambda: len(g),
+            ):
+                try:
+                    warm()
+                except Exception:
+                    pass  # a routine that fails on this DAG is reported by the checks on the reduced graph / the other styles
+            g.remove(extra)
         else:
             g.add_child(nodes[op[1]], nodes[op[2]])
     return g, nodes
@@ -142,7 +177,7 @@ def case_edges(case):
     for op in case.get("ops", ()):
         if op[0] == "n":
             edges.extend((op[1], c) for c in op[2])
-        else:
+        elif op[0] == "e":
             edges.append((op[1], op[2]))
     return edges
 
@@ -675,7 +710,7 @@ def count_dags_by_sources(nmax):
 
 A003024 = [1, 1, 3, 25, 543, 29281, 3781503]  # number of labelled DAGs on n nodes
 
-STYLES = ["asc", "desc", "ctor", "addch", "shuf"]
+STYLES = ["asc", "desc", "ctor", "addch", "shuf", "warmrm"]
 
 
 def adj_edges(n, adj):
@@ -692,6 +727,12 @@ def styled(cls, n, edges, style, rng):
         return [[i, [c for a, c in edges if a == i]] for i in range(n)], []
     if style == "addch":  # add_node(node, *children) in reverse label order, children descending
         return None, [["n", i, [c for a, c in edges[::-1] if a == i]] for i in range(n - 1, -1, -1)]
+    if style == "warmrm":
+        # built ascending, then an EXTRA source with edges to the even-labelled nodes is added, every query routine is
+        # called once (so that anything a routine memoises is filled), and the extra source is removed again with
+        # Graph.remove (what TaskGraph.clean does with finished tasks): the graph is the n-node graph again and every
+        # contract is checked on it (seed C17-3: a stale cached order survives the removal)
+        return None, [["n", i, []] for i in range(n)] + [["e", a, b] for a, b in edges] + [["x", [i for i in range(n) if i % 2 == 0]]]
     if style == "shuf":  # nodes and edges in seeded random order
         order = list(range(n))
         rng.shuffle(order)
@@ -985,8 +1026,8 @@ def plan(tier, seed, max_n=None):
         exhaustive("graph", 5, STYLES, "sample", 1500)
         for cls in ("taskgraph", "jobgraph"):
             for n in range(0, 4):
-                exhaustive(cls, n, ["ctor", "addch"], "all", 40)
-            exhaustive(cls, 4, ["ctor", "addch"], "rotate:10", 60)
+                exhaustive(cls, n, ["ctor", "addch", "warmrm"], "all", 40)
+            exhaustive(cls, 4, ["ctor", "addch", "warmrm"], "rotate:10", 60)
         nrand, ncyc = 40, 40
     else:
         for n in range(0, 6):
@@ -994,8 +1035,8 @@ def plan(tier, seed, max_n=None):
         exhaustive("graph", 6, STYLES, "rotate", 20000)
         for cls in ("taskgraph", "jobgraph"):
             for n in range(0, 5):
-                exhaustive(cls, n, ["ctor", "addch"], "all", 40)
-            exhaustive(cls, 5, ["ctor", "addch", "shuf"], "rotate", 1500)
+                exhaustive(cls, n, ["ctor", "addch", "warmrm"], "all", 40)
+            exhaustive(cls, 5, ["ctor", "addch", "shuf", "warmrm"], "rotate", 1500)
         nrand, ncyc = 600, 400
     for which in ("small", "four", "hand"):
         items.append((task_cyclic, (which, seed, 0)))
